@@ -71,7 +71,7 @@ def valid(p):
 def main():
     src, v = sys.argv[1], sys.argv[2]
     if src.isdigit():
-        rest = json.load(open("/verif/.work/bind3/rest.json"))
+        rest = json.load(open("/verif/.work/bindsweep/rest.json"))
         prog = rest[int(src)][0]
     else:
         prog = json.load(open(src))
